@@ -457,8 +457,105 @@ void shrink(const Plan& p, std::vector<Plan>& out) {
   }
 }
 
+// ---- Compiler: arbitrary virtual register ids ----------------------------------------------------------------------------
+// A function with a valid body into which instructions with invalid virtual registers are mixed: ids beyond the number
+// of registers created, ids of another register group than the operand claims, invalid ids as memory base / index.
+// finalize() must report an error (never crash) when such an instruction is present and succeed otherwise; afterwards
+// the same objects, reset, must compile the valid-only function exactly like fresh ones.
+enum VirtOp : uint16_t { kVirtValid = 100, kVirtBadId, kVirtWrongGroup, kVirtBadMemBase, kVirtBadMemIndex };
+
+std::string compile_virt(const Plan& plan, bool include_invalid, CodeHolder& code, x86::Compiler& cc, Error* result, bool* had_invalid, bool* may_fail) {
+  *had_invalid = false; *may_fail = false;
+  FuncNode* fn = cc.add_func(FuncSignature::build<uint64_t, uint64_t, uint64_t>());
+  std::vector<x86::Gp> regs;
+  uint32_t nregs = uint32_t(plan.get("nregs", 4));
+  for (uint32_t i = 0; i < nregs; i++) regs.push_back(cc.new_gp64("r%u", i));
+  if (fn) { fn->set_arg(0, regs[0]); fn->set_arg(1, regs[1 % nregs]); }
+  for (uint32_t i = 2; i < nregs; i++) cc.mov(regs[i], regs[i - 1]);
+  x86::Vec v = cc.new_xmm("v");
+  cc.pxor(v, v);
+  for (const Op& op : plan.ops) {
+    const x86::Gp& a = regs[size_t(op.a[0]) % nregs];
+    const x86::Gp& b = regs[size_t(op.a[1]) % nregs];
+    uint32_t bad_id = uint32_t(Operand::kVirtIdMin + nregs + 1 + uint32_t(op.a[2] % 5000));
+    switch (op.kind) {
+      case kVirtValid: cc.add(a, b); break;
+      case kVirtBadId: if (include_invalid) { cc.emit(x86::Inst::kIdAdd, a, Reg::from_type_and_id(RegType::kGp64, bad_id)); *had_invalid = true; } break;
+      // The id of a general-purpose virtual register inside an operand that claims to be an XMM register: the id exists,
+      // only its use is inconsistent; the allocator may accept it (it goes by the virtual register's own type) or refuse
+      // it, but it must not misbehave. It does not count as "must fail".
+      case kVirtWrongGroup: if (include_invalid) { cc.emit(x86::Inst::kIdPaddd, v, Reg::from_type_and_id(RegType::kVec128, a.id())); *may_fail = true; } break;
+      case kVirtBadMemBase: if (include_invalid) { x86::Mem m = x86::qword_ptr(a); m.set_base(Reg::from_type_and_id(RegType::kGp64, bad_id)); cc.emit(x86::Inst::kIdMov, b, m); *had_invalid = true; } break;
+      case kVirtBadMemIndex: if (include_invalid) { x86::Mem m = x86::qword_ptr(a, b, 1); m.set_index(Reg::from_type_and_id(RegType::kGp64, bad_id), 1); cc.emit(x86::Inst::kIdMov, b, m); *had_invalid = true; } break;
+      default: break;
+    }
+  }
+  cc.ret(regs[0]);
+  cc.end_func();
+  *result = cc.finalize();
+  return gen::snapshot(code);
+}
+
+void execute_virt(const Plan& plan) {
+  sim::heap::configure(int(plan.get("junk", 0)), 0, 0, plan.seed);
+  sim::heap::arm(true);
+  sim::begin_op(Op(), 0);
+  std::string recycled, fresh;
+  {
+    CodeHolder code; gen::RecordingHandler eh;
+    SIM_CHECK(code.init(Environment(Arch::kX64)) == Error::kOk, "c14:setup", "init failed");
+    x86::Compiler cc(&code);
+    if (plan.get("handler", 0)) cc.set_error_handler(&eh);
+    Error err; bool had_invalid, may_fail;
+    compile_virt(plan, true, code, cc, &err, &had_invalid, &may_fail);
+    sim::logf("compile with invalid=%d -> err=%u", int(had_invalid), unsigned(err));
+    if (had_invalid) { SIM_CHECK(err != Error::kOk, "c14:invalid-virtual-register-accepted", "a function that uses an invalid virtual register was compiled without an error"); sim::mark_nontrivial(); }
+    else if (!may_fail) SIM_CHECK(err == Error::kOk, "c14:valid-function-rejected", "a valid function failed to compile with error %u", unsigned(err));
+    // the same objects, reset, must behave like fresh ones for the valid-only function
+    code.reset(ResetPolicy::kSoft);
+    SIM_CHECK(code.init(Environment(Arch::kX64)) == Error::kOk && code.attach(&cc) == Error::kOk, "c14:setup", "re-init failed");
+    Error err2; bool hi2, mf2;
+    recycled = compile_virt(plan, false, code, cc, &err2, &hi2, &mf2);
+    SIM_CHECK(err2 == Error::kOk, "c14:valid-function-rejected", "after a failed compilation the same Compiler fails to compile a valid function (error %u)", unsigned(err2));
+  }
+  {
+    CodeHolder code;
+    SIM_CHECK(code.init(Environment(Arch::kX64)) == Error::kOk, "c14:setup", "init failed");
+    x86::Compiler cc(&code);
+    Error err; bool hi, mf;
+    fresh = compile_virt(plan, false, code, cc, &err, &hi, &mf);
+    SIM_CHECK(err == Error::kOk, "c14:valid-function-rejected", "fresh compile failed %u", unsigned(err));
+  }
+  SIM_CHECK(recycled == fresh, "c14:differs-from-fresh-emitter", "after a failed compilation the Compiler produces different code for a valid function than a fresh Compiler");
+  sim::end_op();
+  sim::add_steps(plan.ops.size());
+  sim::heap::arm(false);
+  SIM_CHECK(sim::heap::live_blocks_this_run() == 0, "c14:leak", "%zu heap block(s) left", sim::heap::live_blocks_this_run());
+}
+
+Plan generate_virt(uint64_t seed, bool thorough) {
+  Plan p;
+  Rng cfg = sim::stream(seed, "cfg");
+  Rng r = sim::stream(seed, "plan");
+  p.set("nregs", int64_t(2 + cfg.below(thorough ? 30 : 12)));
+  p.set("handler", int64_t(cfg.below(2)));
+  p.set("junk", int64_t(cfg.below(4)));
+  size_t n = size_t(1 + r.below(thorough ? 40 : 16));
+  bool any_invalid = cfg.chance(4, 5);
+  for (size_t i = 0; i < n; i++) {
+    Op op;
+    op.kind = (any_invalid && r.chance(1, 5)) ? uint16_t(kVirtBadId + r.below(4)) : uint16_t(kVirtValid);
+    op.a[0] = int64_t(r.below(1000)); op.a[1] = int64_t(r.below(1000)); op.a[2] = int64_t(r.below(100000));
+    p.ops.push_back(op);
+  }
+  return p;
+}
+
+const char* op_name_virt(uint16_t k) { static const char* const n[] = {"valid_add", "bad_virt_id", "wrong_register_group", "bad_virt_mem_base", "bad_virt_mem_index"}; return k >= kVirtValid && k <= kVirtBadMemIndex ? n[k - kVirtValid] : op_name(k); }
+
 const sim::Scenario kScenario = {"C14", "invalid-calls", "asan", 250000, 5000000, generate, execute, op_name, shrink, nullptr};
-sim::Registrar reg(kScenario);
+const sim::Scenario kVirt = {"C14", "compiler-virt-regs", "asan", 20000, 400000, generate_virt, execute_virt, op_name_virt, nullptr, nullptr};
+sim::Registrar reg(kScenario), reg2(kVirt);
 
 const char* const kAssumptions[] = {
   "Whether a call that SUCCEEDED was encoded correctly is C01/C02, not this property; here a successful call only has to be reproducible on a fresh emitter.",
@@ -469,7 +566,7 @@ const char* const kReal[] = {"asmjit x86::Assembler/Builder/Compiler (x86-32 and
 const char* const kStub[] = {"SimHeap junk fill / realloc policy, H4 code buffer capacity; the error handler (none / recording / throwing) is the injected 'fault'", nullptr};
 const sim::PropInfo kInfo = {"C14", "exploration",
   "Each run is one seed: target (x86-32, x86-64, AArch64), emitter (Assembler, Builder, Compiler), error handler mode (none, recording, throwing), a generated valid program of 5..65 calls and, interleaved with it, invalid calls: on x86 arbitrary (instruction id incl. out of range, option bits, extra register, 0..6 operands of any register type/id, memory form, label incl. out-of-range ids, immediate) with strict validation on; on AArch64 valid forms with ids, immediates, offsets, index/shift/pre-post modifiers and label ids perturbed; on both bind/align/embed_label/embed_label_delta/section/named-label/embed_data_array calls with invalid arguments. "
-  "Oracles: no sanitizer report; a call that reports an error (return value or handler, including a throwing handler) leaves section bytes and sizes, label/bound/fixup/relocation/section/node counts unchanged and the one-shot state cleared; a call that references a label id beyond the label count must fail; at the end sections, labels and relocations (after finalize() for Builder/Compiler) equal those of a fresh emitter given only the calls that succeeded. Non-trivial = at least one call failed; distinct = distinct event-log hashes.",
+  "Scenario 'compiler-virt-regs' mixes instructions with arbitrary virtual register ids (beyond the registers created, of another register group, as memory base/index) into a valid x86-64 Compiler function: finalize() must report an error, and the same Compiler, reset, must then compile the valid function exactly like a fresh one. Oracles: no sanitizer report; a call that reports an error (return value or handler, including a throwing handler) leaves section bytes and sizes, label/bound/fixup/relocation/section/node counts unchanged and the one-shot state cleared; a call that references a label id beyond the label count must fail; at the end sections, labels and relocations (after finalize() for Builder/Compiler) equal those of a fresh emitter given only the calls that succeeded. Non-trivial = at least one call failed; distinct = distinct event-log hashes.",
   kAssumptions, kReal, kStub};
 sim::PropInfoRegistrar reginfo(kInfo);
 
